@@ -9,7 +9,7 @@ UNI = [0xDF, 0x1E9E, 0x3AC, 0x386, 0x3CE, 0x400, 0x4FF, 0x5BE, 0x4E00, 0x9FD5, 0
        0x85, 0x2028, 0xD800, 0xFFFF, 0x10000, 0x10FFFF, 0x2022, 0xA9, 0x20AC]
 CATALOGUE = sorted(set(META + INCLASS + OTHER + UNI))
 
-CORE_WINDOWS = [(97, 91, 36), (97, 92, 93), (97, 124, 40), (98, 46, 63), (97, 94, 45), (97, 41, 42),
+CORE_WINDOWS = [(97, 91, 36), (97, 92, 93), (97, 124, 40), (10, 41, 124), (98, 46, 63), (97, 94, 45), (97, 41, 42),
                 (65, 123, 125), (97, 43, 47), (97, 10, 98), (49, 36, 50), (97, 36, 10), (97, 93, 91), (97, 40, 41), (97, 63, 42), (97, 47, 92)]
 
 
